@@ -624,9 +624,104 @@ def first_code_line(text):
     return ''
 
 
-def weave(fn, sc, log, lost, unit_rewrites=()):
+# --------------------------------------------------------------------------------------------
+# R10: alpha-renaming of local variables back to the names the sidecar was written against
+# --------------------------------------------------------------------------------------------
+_KEYWORDS = {'mut', 'ref', 'let', 'for', 'in', 'if', 'else', 'match', 'while', 'loop', 'return', 'break', 'continue', 'as', 'move', 'async',
+             'await', 'fn', 'impl', 'dyn', 'where', 'true', 'false', 'self', 'Self', 'super', 'crate', 'pub', 'use', 'const', 'static', 'struct', 'enum', 'type',
+             'unsafe', 'box', '_'}
+
+
+def binders(toks):
+    """ordered list of the local names bound by `let` / `for` patterns of a function body (snake_case identifiers that are not
+    followed by `(`, `{` or `::`, i.e. not constructors or paths)"""
+    out = []
+    i, n = 0, len(toks)
+    while i < n:
+        t = toks[i]
+        if t.kind == 'ident' and t.text in ('let', 'for') and not (i > 0 and toks[i - 1].text == '.'):
+            j = i + 1
+            depth = 0
+            while j < n:
+                u = toks[j]
+                if u.kind == 'punct' and u.text in '([{':
+                    depth += 1
+                elif u.kind == 'punct' and u.text in ')]}':
+                    depth -= 1
+                    if depth < 0:
+                        break
+                if depth == 0 and ((u.kind == 'punct' and u.text in ('=', ';', ':')) or (u.kind == 'ident' and u.text in ('in', 'else'))):
+                    break
+                if u.kind == 'ident' and u.text not in _KEYWORDS and (u.text[0].islower() or u.text[0] == '_') \
+                        and not (j + 1 < n and toks[j + 1].kind == 'punct' and toks[j + 1].text in ('(', '{', '::', '!')) \
+                        and not (toks[j - 1].kind == 'punct' and toks[j - 1].text in ('::', '.')):
+                    out.append(u.text)
+                j += 1
+            i = j
+            continue
+        i += 1
+    return out
+
+
+def alpha_normalise(toks, expected, log):
+    """If the function binds the same NUMBER of locals as when the sidecar was written but under other names, rename them back
+    (token-wise; field accesses, paths and struct-literal field names are left alone).  Anything unexpected: no change."""
+    cur = binders(toks)
+    if not expected or cur == expected or len(cur) != len(expected):
+        return toks
+    mp = {}
+    for c, e in zip(cur, expected):
+        if c != e:
+            if mp.get(c, e) != e:
+                return toks             # one name, two targets: not a pure renaming
+            mp[c] = e
+    if len(set(mp.values())) != len(mp):
+        return toks
+    idents = {t.text for t in toks if t.kind == 'ident'}
+    for c, e in mp.items():
+        if e in idents and e not in mp:   # the target name is in use for something else: renaming could capture
+            return toks
+        if c in expected:                 # the old name is one of the recorded names: a swap, leave it to the verifier
+            return toks
+    out = []
+    for k, t in enumerate(toks):
+        if t.kind == 'ident' and t.text in mp:
+            prev = toks[k - 1] if k > 0 else None
+            nxt = toks[k + 1] if k + 1 < len(toks) else None
+            after_dot = prev is not None and prev.kind == 'punct' and prev.text in ('.', '::')
+            field_name = nxt is not None and nxt.kind == 'punct' and nxt.text == ':' and prev is not None and prev.kind == 'punct' and prev.text in ('{', ',') \
+                and not _in_let_pattern(toks, k)
+            if not after_dot and not field_name:
+                out.append(Tok(t.kind, mp[t.text], t.sp))
+                continue
+        out.append(t)
+    log.hit('R10', len(mp))
+    return out
+
+
+def _in_let_pattern(toks, k):
+    """is token k inside the pattern of a `let` (between `let` and the `=`/`;` at depth 0)?"""
+    depth = 0
+    j = k - 1
+    while j >= 0:
+        u = toks[j]
+        if u.kind == 'punct' and u.text in ')]}':
+            depth += 1
+        elif u.kind == 'punct' and u.text in '([{':
+            depth -= 1
+        elif depth <= 0 and u.kind == 'punct' and u.text in ('=', ';'):
+            return False
+        elif u.kind == 'ident' and u.text == 'let':
+            return True
+        j -= 1
+    return False
+
+
+def weave(fn, sc, log, lost, unit_rewrites=(), expected_locals=None):
     """fn: dict from Crate.find_fn; sc: Sidecar.  Returns list of text lines (Verus)."""
     btoks = strip_attrs(fn['body'], log)
+    if expected_locals:
+        btoks = alpha_normalise(btoks, expected_locals, log)
     # D2: `#[async_recursion]` wraps the body in `Box::pin(async move { BODY })`
     if len(btoks) > 9 and [t.text for t in btoks[:7]] == ['Box', '::', 'pin', '(', 'async', 'move', '{'] \
             and btoks[-1].text == ')' and btoks[-2].text == '}' and match_close(btoks, 6) == len(btoks) - 2:
